@@ -139,7 +139,13 @@ func runC18(c *Ctx) {
 func topologyUnderTraffic(c *Ctx, rep int) {
 	r := c.R
 	c.Step("topology-under-traffic rep=%d", rep)
-	bed, err := px.NewBed(px.BedConfig{Hosts: 4, NumConns: 1 + rep%2, Keyspaces: []string{"ks1"}, Unlisted: []int{4}, RefreshWindow: 15 * time.Millisecond, ReconnectBase: time.Millisecond, ReconnectMax: 3 * time.Millisecond})
+	// the nodes differ from each other (a rolling upgrade): whatever the proxy reads off the node its control connection has
+	// moved to is something a client goroutine may be reading at that moment
+	bed, err := px.NewBed(px.BedConfig{Hosts: 4, NumConns: 1 + rep%2, Keyspaces: []string{"ks1"}, Unlisted: []int{4}, RefreshWindow: 15 * time.Millisecond, ReconnectBase: time.Millisecond, ReconnectMax: 3 * time.Millisecond,
+		Tune: func(f *fakecass.Config) {
+			f.HostRelease = map[int]string{2: "4.1.5", 3: "3.11.17", 4: "5.0.1"}
+			f.HostCQL = map[int]string{2: "3.4.6", 3: "3.4.4", 4: "3.4.7"}
+		}})
 	if err != nil {
 		r.Inconc("topology-under-traffic: cannot start bed: " + err.Error())
 		return
